@@ -432,7 +432,8 @@ func (r *zRun) opCase(defRaw string, srcs []zCredSrc) bool {
 		}
 	}
 	op.Def = zDef(pd)
-	r.emit(op, fmt.Sprintf("case req=%v", pd.CredentialsRequired()))
+	// wf=true: the schema accepted the definition (the model recomputes it from the parsed submission requirements)
+	r.emit(op, fmt.Sprintf("case req=%v wf=true", pd.CredentialsRequired()))
 	return true
 }
 
@@ -1117,7 +1118,7 @@ func zGenFormats(rng *rand.Rand) map[string]interface{} {
 	return f
 }
 
-func zGenSR(rng *rand.Rand, groups []string, depth int, feat map[string]int) map[string]interface{} {
+func zGenSR(rng *rand.Rand, groups []string, depth int, feat map[string]int, force string) map[string]interface{} {
 	s := map[string]interface{}{}
 	if rng.Intn(3) == 0 {
 		s["name"] = "sr" + strconv.Itoa(rng.Intn(9))
@@ -1149,13 +1150,29 @@ func zGenSR(rng *rand.Rand, groups []string, depth int, feat map[string]int) map
 			feat["sr:pick-count-max"]++
 		}
 	}
+	switch rng.Intn(60) {
+	case 0:
+		s["count"] = 0
+		feat["sr:invalid-count-0"]++
+	case 1:
+		s["rule"] = "some"
+		feat["sr:invalid-rule"]++
+	case 2:
+		s["from"] = zPick(rng, groups)
+		s["from_nested"] = []interface{}{map[string]interface{}{"rule": "all", "from": "A"}}
+		feat["sr:invalid-both"]++
+		return s
+	}
 	if depth > 0 && rng.Intn(4) == 0 {
 		n := []interface{}{}
 		for k := 1 + rng.Intn(3); k > 0; k-- {
-			n = append(n, zGenSR(rng, groups, depth-1, feat))
+			n = append(n, zGenSR(rng, groups, depth-1, feat, force))
+			force = ""
 		}
 		s["from_nested"] = n
 		feat["sr:nested"]++
+	} else if force != "" {
+		s["from"] = force
 	} else {
 		s["from"] = zPick(rng, groups)
 	}
@@ -1266,8 +1283,33 @@ func zGenDef(rng *rand.Rand, creds []vc.VerifiableCredential, feat map[string]in
 	def["input_descriptors"] = ds
 	if useSR {
 		srs := []interface{}{}
-		for k := 1 + rng.Intn(2); k > 0; k-- {
-			srs = append(srs, zGenSR(rng, groups, 2, feat))
+		used := []string{}
+		for _, d := range ds {
+			if g, ok := d.(map[string]interface{})["group"].([]interface{}); ok {
+				for _, x := range g {
+					dup := false
+					for _, u := range used {
+						dup = dup || u == x.(string)
+					}
+					if !dup {
+						used = append(used, x.(string))
+					}
+				}
+			}
+		}
+		if len(used) > 0 && rng.Intn(10) < 7 {
+			// every group that is used gets a requirement (otherwise Match reports the group as not available)
+			rng.Shuffle(len(used), func(i, j int) { used[i], used[j] = used[j], used[i] })
+			for _, g := range used {
+				srs = append(srs, zGenSR(rng, groups, 2, feat, g))
+			}
+			if rng.Intn(4) == 0 {
+				srs = append(srs, zGenSR(rng, groups, 2, feat, ""))
+			}
+		} else {
+			for k := 1 + rng.Intn(2); k > 0; k-- {
+				srs = append(srs, zGenSR(rng, groups, 2, feat, ""))
+			}
 		}
 		def["submission_requirements"] = srs
 		feat["mode:submission-requirements"]++
@@ -1342,9 +1384,9 @@ func TestVerifC12(t *testing.T) {
 		t.Skip("VERIF_OUT not set")
 	}
 	seed, _ := strconv.ParseInt(os.Getenv("VERIF_SEED"), 10, 64)
-	nCases := 300
+	nCases := 4000
 	if os.Getenv("VERIF_TIER") == "thorough" {
-		nCases = 3000
+		nCases = 40000
 	}
 	if v, err := strconv.Atoi(os.Getenv("VERIF_CASES")); err == nil {
 		nCases = v
